@@ -30,6 +30,7 @@ from skglm.datafits import (Cox, Quadratic, Logistic, QuadraticSVC,
 from skglm.penalties import (L1, WeightedL1, L1_plus_L2, L2, WeightedGroupL2,
                              MCPenalty, WeightedMCPenalty, IndicatorBox, L2_1)
 from skglm.utils.data import grp_converter
+from skglm import _verif
 
 
 def _glm_fit(X, y, model, datafit, penalty, solver):
@@ -142,6 +143,10 @@ def _glm_fit(X, y, model, datafit, penalty, solver):
                 "expected %i, got %i." % (X_.shape[1], len(penalty.weights)))
 
     coefs, p_obj, kkt = solver.solve(X_, y, datafit_jit, penalty_jit, w, Xw)
+    if _verif.ON:
+        _verif.emit("fit_solve", model=model, solver=solver, X=X_, y=y,
+                    datafit=datafit_jit, penalty=penalty_jit, coefs=coefs,
+                    p_obj=p_obj, kkt=kkt)
     model.coef_, model.stop_crit_ = coefs[:n_features], kkt
     if y.ndim == 1:
         model.intercept_ = coefs[-1] if fit_intercept else 0.
